@@ -386,6 +386,8 @@ C12_STRINGS = ["a = 1; a", "1", "1.5", '"s"', "true", "(1,2)", "()", "", "a", "b
                "1_000", "0x10 ", "-0x10", "1e3", "+1e3", "inf", "-inf", "nan", " \"s\" ", "\"\"", "()", " ( ) ", "(1,)", "1,", "(,)",
                "5;", "5 ;", ";5", " ", "\n", "\u3000", "1 // c", "/* c */ 1", "true ", "- 5", "--5", "!true", "! true",
                # user functions answering with the typed-accessor errors a wrapper might confuse with its own
+               "a = 1 / 0", "a = missing", "1 / 0; a = 2", "b = nosuch(1)", "a += true + 1", "missing; a = 1", "h(1); a = 2",
+               '"a" = 3; a', '"x" += 1', "3 = 4", '("a" + "b") = true; ab', '"c" = "s"; c', '"q" = 1; q', "(a) = 4; a",
                "nf(1)", "nf(1.5)", "nf(a)", "nf(b)", "nf(c)", "nn(c)", "nn(a)", "nf a", "nf(1) + 1", "nf(x)", "nn(y)", "nf(())"]
 # consecutive evaluations of strings that differ only in separators inside or between tokens: each is evaluated on its own
 C12_PAIRS = [('"a b" + "c"', '"ab" + "c"'), ("1 2", "12"), ("a b", "ab"), ("1 + 2", "1+2"), ("12", "1 2"), ('"x"', '" x"'),
@@ -668,7 +670,7 @@ def c05_oracle(case, out, model_out):
 
 
 PROPS["C02"] = {
-    "gen": c02_gen, "oracle": tree_oracle, "extra_props": ["EndToEnd"],
+    "gen": c02_gen, "oracle": tree_oracle, "extra_props": ["EndToEnd", "EndToEndF"],
     "rule": "all ASTs a o1 b o2 c over the 14x14 ordered binary-operator pairs in both groupings, with prefix, call and the 9 assignment operators, rendered with exactly the required parentheses and with redundant ones; random ASTs of depth <= 6 over all operators with random separators; all token sequences of length <= 4 (quick) / 5 (thorough) over a 16-token alphabet (model vs implementation); non-trivial = more than one token",
     "nontrivial": lambda c, out: len(c[0]) > 16,
     "assumptions": ["the reference tree of tools/gen.py (tree_of) is the Python twin of Spec/Grammar.v tree_of; used only to search for failing inputs",
@@ -1088,7 +1090,7 @@ def c10_gen(tier, rng):
 
 
 PROPS["C10"] = {
-    "gen": c10_gen, "oracle": c10_oracle, "release": True, "extra_props": ["FloatIEEE2"],
+    "gen": c10_gen, "oracle": c10_oracle, "release": True, "extra_props": ["FloatIEEE2", "IntText"],
     "rule": "every documented builtin (49) applied to every value of the edge pool P, to all pairs of the small pool (full integer/float pairs for the two-argument numeric ones, all shift amounts -2..66), to random tuples of arity 0..4, str::substring over all byte offsets of the string pool, typed `if`, min/max over random lists; debug and release builds; reference: documented result computed independently for the non-transcendental builtins, the std function on the documented arguments (through the model) for the others; non-trivial = the builtin returns a value",
     "nontrivial": lambda c, out: " OK " in out.split(" || ")[0].split(" | ")[-1] or out.split(" || ")[0].split(" | ")[-1].startswith("OK"),
     "assumptions": ["std oracle: the f64 functions of Rust's std are what the documentation calls `the corresponding double-precision library function`",
@@ -1105,7 +1107,7 @@ class Stop(Exception):
         self.name = name
 
 
-C08_FUNS = {"rec": "id", "k7": "konst:I7", "boom": "fail:" + hexs("boom"), "first": "fst", "sw": "swap", "up": "inc"}
+C08_FUNS = {"rec": "id", "k7": "konst:I7", "boom": "fail:" + hexs("boom"), "first": "fst", "sw": "swap", "up": "inc", "min": "id", "len": "fail:" + hexs("boom")}
 C08_VARS = {"p": ("I", 1), "q": ("B", True), "t": ("T", [("I", 1), ("I", 2)])}
 TYPE_NAME = {"S": "String", "I": "Int", "F": "Float", "B": "Boolean", "T": "Tuple", "E": "Empty"}
 
@@ -1250,7 +1252,7 @@ def c08_rand_expr(r, depth, ty=None):
         return ("var", "t")
     k = r.random()
     if k < 0.12:
-        return ("call", r.choice(["rec", "rec", "boom"] if r.random() < 0.9 else sorted(C08_FUNS)), c08_rand_expr(r, depth - 1, ty))
+        return ("call", r.choice(["rec", "rec", "boom", "min"] if r.random() < 0.9 else sorted(C08_FUNS)), c08_rand_expr(r, depth - 1, ty))
     if k < 0.2:
         x = {"I": r.choice(["p", "u"]), "B": r.choice(["q", "w"]), "T": "t"}[ty]
         op = {"I": r.choice(["=", "+=", "-=", "*=", "=", "+=", "-=", "*=", "/=", "%=", "^="]), "B": r.choice(["=", "&&=", "||="]), "T": "="}[ty]
@@ -1340,6 +1342,30 @@ def c08_gen(tier, rng):
         want = (strip_payload(project_text(ty, want[0])), want[1], want[2])
         cases.append((G.script("H", c08_setup() + ["ev %s%s%s %s" % (lvl, "r" if ro else "m", ty, hexs(src))]),
                       {"kind": "effects", "src": src, "want": list(want), "readonly": ro, "entry": lvl + ("r" if ro else "m") + ty}))
+    # assignment targets that are expressions (the target is the string the left operand evaluates to):
+    # left operand first, then the right one, then the assignment; (source, result, variables, call log)
+    base = {"p": "I1", "q": "B1", "t": "T(I1,I2)"}
+    def ctxt(**kw):
+        d = dict(base); d.update(kw)
+        return ",".join("%s=%s" % (hexs(k), d[k]) for k in sorted(d, key=hexs))
+    L = lambda *calls: ",".join("%s(%s)" % (hexs(f), a) for f, a in calls)
+    S = lambda x: "S" + hexs(x)
+    for src, res, cx, lg in [
+            ('(rec("z")) = rec(2); z', "OK I2", ctxt(z="I2"), L(("rec", S("z")), ("rec", "I2"))),
+            ('(rec("p")) = rec(5)', "OK E", ctxt(p="I5"), L(("rec", S("p")), ("rec", "I5"))),
+            ("(missing) = rec(1)", "ERR VariableIdentifierNotFound", ctxt(), ""),
+            ('(boom("z")) = rec(1)', "ERR CustomMessage", ctxt(), L(("boom", S("z")))),
+            ('(rec("z")) = boom(1)', "ERR CustomMessage", ctxt(), L(("rec", S("z")), ("boom", "I1"))),
+            ('(rec("z")) = (p = 7; 3)', "OK E", ctxt(p="I7", z="I3"), L(("rec", S("z")))),
+            ('("a" + boom(0)) = (p = 5; 6)', "ERR CustomMessage", ctxt(), L(("boom", "I0"))),
+            ('(rec("q")) = rec(2)', "ERR ExpectedBoolean", ctxt(), L(("rec", S("q")), ("rec", "I2"))),
+            ('(rec(1)) = rec(2)', "ERR ExpectedString", ctxt(), L(("rec", "I1"), ("rec", "I2"))),
+            ('(rec("p")) += rec(2); p', "OK I3", ctxt(p="I3"), L(("rec", S("p")), ("rec", "I2"))),
+            ("min(rec(1), rec(2))", "OK T(I1,I2)", ctxt(), L(("rec", "I1"), ("rec", "I2"), ("min", "T(I1,I2)"))),
+            ("len(rec(1))", "ERR CustomMessage", ctxt(), L(("rec", "I1"), ("len", "I1")))]:
+        for entry in ("smv", "nmv"):
+            cases.append((G.script("H", c08_setup() + ["ev %s %s" % (entry, hexs(src))]),
+                          {"kind": "effects", "src": src, "want": [res, cx, lg], "readonly": False, "entry": entry}))
     for src in ["false && rec(true)", "true || rec(false)", "false && (1/0 == 1)", "(rec(1), u = 5, 1/0, rec(2), u = 6)",
                 "p += (p = 10; 1); p", "rec(1) + boom(2) * rec(3)", "u = 1; (1 / 0) == (u = 2); u = 3"]:
         cases.append((G.script("H", c08_setup() + ["ev smv " + hexs(src)]), {"kind": "effects-fixed", "src": src}))
@@ -1404,6 +1430,14 @@ def c11_gen(tier, rng):
                 for kind in ("H", "N"):
                     ops = C12_SETUP + ["dump", "evc %sm%s %s" % (lv, ty, hexs(src)), "ev %sr%s %s" % (lv, ty, hexs(src)), "dump"]
                     cases.append((G.script(kind, ops), {"kind": "agree", "src": src, "ctx": kind, "entry": lv + "*" + ty}))
+    # variables whose names are not identifiers: the source text is an expression, never a key
+    odd = ["true", "7", "a+b", "1 + 1", "", " a", "a ", "()", "-1", '"s"', "a;", "1.5", "f(a)", "a, b"]
+    for src in odd + ["a", "b"]:
+        for lv in "sn":
+            for ty in "vi":
+                ops = C12_SETUP + ["init %s I%d" % (hexs(nm), 40 + k) for k, nm in enumerate(odd)] + \
+                      ["dump", "evc %sm%s %s" % (lv, ty, hexs(src)), "ev %sr%s %s" % (lv, ty, hexs(src)), "dump"]
+                cases.append((G.script("H", ops), {"kind": "agree", "src": src, "ctx": "H", "entry": lv + "*" + ty}))
     # contexts without variable storage / read-only kinds
     for src in ["a = 1", "a += 1", "1; a = 2", "q = 1; q", "1 + (z = 2)"]:
         for kind in ("N", "E", "EB"):
@@ -1599,7 +1633,7 @@ def c04_history(rng, length):
             A.vars, A.funs = {}, {}
             want.append("OK")
         elif k < 0.83:
-            f = rng.choice(["f", "a"])
+            f = rng.choice(["f", "a", "max"])
             kv = rng.choice([7, 8, 9])     # a later set_function of the same name replaces the earlier one
             ops.append("setfn %s konst:I%d" % (hexs(f), kv))
             A.funs[f] = kv
@@ -1613,12 +1647,12 @@ def c04_history(rng, length):
             ops.append("clone")
             want.append("OK")
         elif k < 0.97:
-            f = rng.choice(["f", "a"])
+            f = rng.choice(["f", "a", "max"])
             ops.append("call %s I1" % hexs(f))
             want.append("OK I%d" % A.funs[f] if f in A.funs else "ERR FunctionIdentifierNotFound(%s)" % hexs(f))
         else:
             ops.append("ev srv " + hexs("max(1, 2)"))
-            want.append("ERR FunctionIdentifierNotFound(%s)" % hexs("max") if A.off else "OK I2")
+            want.append("OK I%d" % A.funs["max"] if "max" in A.funs else "ERR FunctionIdentifierNotFound(%s)" % hexs("max") if A.off else "OK I2")
         ops.append("dump")
         want.append(A.dump())
     return ops, want
@@ -1741,7 +1775,7 @@ def c09_cases(names_builtin, names_other, rng, full):
     for n in names_builtin + names_other:
         is_b = n in L.DOCUMENTED_BUILTINS
         for kind in ("H", "N", "E", "EB"):
-            for off in ((False, True) if kind in ("H", "N") else (None,)):
+            for off in ((False, True, "toggle") if kind in ("H", "N") else (None,)):
                 for userfn in ((False, True, "fail") if kind in ("H", "N") else (False,)):
                     for var in ((False, True, "first") if kind in ("H", "N") else (False,)):
                         if var == "first" and not userfn:
@@ -1764,11 +1798,13 @@ def c09_cases(names_builtin, names_other, rng, full):
                                     setup.append("setfn %s konst:%s" % (hexs(n), MARK))
                                 if var is True:
                                     setup.append("init %s S%s" % (hexs(n), hexs("var")))
-                                if off is not None:
+                                if off == "toggle":     # disabled, then enabled again
+                                    setup += ["off 1", "off 0"]
+                                elif off is not None:
                                     setup.append("off %d" % off)
                                 if post:
                                     setup.append(post)
-                            disabled = {"E": True, "EB": False}.get(kind, off)
+                            disabled = {"E": True, "EB": False}.get(kind, off is True)
                             has_user = (userfn if post != "clrf" else False)
                             forms = [("%s(3)" % n, "I3"), ("%s 3" % n, "I3"), ("%s()" % n, "E"), ("%s(3, 4)" % n, "T(I3,I4)"),
                                      ('%s "s"' % n, "S" + hexs("s")), ("%s true" % n, "B1"), ("%s 2.5" % n, "F4004000000000000"),
@@ -1955,10 +1991,12 @@ def c14_gen(tier, rng):
     for _ in range(n // 3):
         raw = G.rand_seq(rng, 2) if rng.random() < 0.3 else G.rand_expr(rng, rng.randint(1, 4))
         e = G.parenthesize_seq(raw) if raw[0] in ("tuple", "chain") else G.parenthesize(raw)
+        if rng.random() < 0.3:   # variables named like a function of the context or a builtin: separate namespaces
+            e = rename_ast(e, lambda c, nm: {"foo": "f", "_z": "g", "a1": "len", "c": "max"}.get(nm, nm) if c in "RW" else nm)
         src = G.render(G.flatten(e), None, "space")
         ren = rename_ast(e, lambda c, nm: ("v_" + nm) if c in "RW" else nm)
         rsrc = G.render(G.flatten(ren), None, "space")
-        vals = {"a": "I3", "b": "F4004000000000000", "c": "S" + hexs("xy"), "x": "B1", "y": "T(I1,I2)"}
+        vals = {"a": "I3", "b": "F4004000000000000", "c": "S" + hexs("xy"), "x": "B1", "y": "T(I1,I2)", "max": "I9"}
         s1 = ["init %s %s" % (hexs(k), v) for k, v in vals.items()] + ["setfn %s id" % hexs("f"), "setfn %s swap" % hexs("g"), "ev nmv " + hexs(src)]
         s2 = ["init %s %s" % (hexs("v_" + k), v) for k, v in vals.items()] + ["setfn %s id" % hexs("f"), "setfn %s swap" % hexs("g"), "ev nmv " + hexs(rsrc)]
         cases.append((G.script("H", s1), {"kind": "rename-a", "pair": len(cases) + 1, "src": src}))
@@ -2174,7 +2212,7 @@ def c06_oracle(case, out, model_out):
 
 
 PROPS["C06"] = {
-    "gen": c06_gen, "oracle": c06_oracle, "extra_props": ["FloatIEEE"],
+    "gen": c06_gen, "oracle": c06_oracle, "extra_props": ["FloatIEEE", "EndToEndF"],
     "rule": "quoted random Unicode strings (all planes, quotes, backslashes, comment markers, newlines), concatenated and measured; every other escape and missing quotes; decimal (with leading zeros) and hexadecimal (both cases) renderings of boundary and random integers in [0, 2^63), values beyond the range; shortest / 17-digit / fixed / e / E / e+ / e- / leading-dot / trailing-dot renderings of boundary and random finite doubles compared bit-exactly with the correctly rounded value (python float()); literals embedded between operators without spaces; booleans; words that are identifiers; the special words inf / infinity / nan (known finding); non-trivial = every case",
     "nontrivial": lambda c, out: True,
     "assumptions": ["python's float() is the correctly rounded decimal-to-double conversion; used only to search for failing inputs",
@@ -2443,6 +2481,9 @@ def c15_special(tier, rng, hooks):
         for arg in ("a", "b", "s", "t", "(a, b)", "(s, 0, 1)", "(true, a, s)", "(t, 1)", "()"):
             srcs.append("%s(%s)" % (n, arg))
     srcs += ["f(a) + f(b)", "(a, b, s, t)", "a; b; s", "-a", "!true", 's + s + s + s', 'str::from(t) + str::from(b)']
+    # a user function that takes a while: other threads read variables and call functions of the shared context meanwhile
+    srcs += ["slow(a) + a + b", "a + slow(b) * a", "(slow(1), a, b, s, t)", "slow(slow(a)) + len(s)", "f(a) + slow(f(b)) + a", "a + a + a + a + b + b",
+             "s + s", "(a, a, a, a, a, a, a, a)", "slow(s) + s"] * 3
     for _ in range(200 if tier == "quick" else 3000):
         raw = G.rand_expr(rng, rng.randint(1, 5), allow_asg=False)
         srcs.append(G.render(G.flatten(G.parenthesize(raw)), None, "space"))
@@ -2664,6 +2705,22 @@ def deepen(gen, reps, first_thorough=False):
         for _ in range(reps):
             yield from chunks_of(gen("quick", rng))
     return g
+
+
+def levelled(gen):
+    """the untyped string-level entry points and the tree-level ones (precompile, then evaluate the tree) are
+    interchangeable for every property: a quarter of the `ev s?v` steps of SCRIPT cases go through the tree level"""
+    def g(tier, rng):
+        r2 = G.random.Random(rng.getrandbits(64))
+        sub = lambda mo: ("ev n%sv" % mo.group(1)) if r2.random() < 0.25 else mo.group(0)
+        res = gen(tier, rng)
+        for chunk in ([res] if isinstance(res, list) else res):
+            yield [((re.sub(r"\bev s([frm])v\b", sub, c[0]) if c[0].startswith("SCRIPT") else c[0]), c[1]) for c in chunk]
+    return g
+
+
+for _pid in ("C03", "C04", "C06", "C07", "C09", "C10", "C13"):
+    PROPS[_pid]["gen"] = levelled(PROPS[_pid]["gen"])
 
 
 for _pid, _reps, _first in (("C01", 60, False), ("C03", 120, True), ("C04", 200, False), ("C06", 80, False), ("C07", 150, False),
